@@ -62,3 +62,30 @@ def canary(cx, st, name):
     cx.oblige(st.copy(), 'canary/' + name, z3.BoolVal(False), kind='canary',
               canary=True)
     cx.prefix = saved
+
+
+def run_runtime(script, args, timeout=900):
+    """Run a runtime/ script under the repo's interpreter against REPO."""
+    import json
+    import os
+    import subprocess
+    from pyvc.frontend import REPO
+    root = os.path.dirname(os.path.dirname(os.path.abspath(__file__)))
+    cmd = ['/venv/bin/python', os.path.join('runtime', script), REPO] + \
+        [str(a) for a in args]
+    try:
+        p = subprocess.run(cmd, capture_output=True, text=True, cwd=root,
+                           timeout=timeout)
+    except subprocess.TimeoutExpired:
+        return dict(found=False, cmd=cmd, error='timeout')
+    out = None
+    for line in reversed((p.stdout or '').strip().splitlines()):
+        try:
+            out = json.loads(line)
+            break
+        except ValueError:
+            continue
+    if p.returncode not in (0, 1) or out is None:
+        return dict(found=False, cmd=cmd, error='runtime script failed',
+                    stderr=(p.stderr or '')[-1500:], rc=p.returncode)
+    return dict(found=p.returncode == 1, cmd=cmd, observed=out)
